@@ -112,12 +112,13 @@ func (d *Data) transcodeBlock(b blockData) (out []byte, err error) {
 
 	switch formatIn {
 	case dvid.LZ4:
-		outsize = binary.LittleEndian.Uint32(b.data[start : start+4])
-		out = b.data[start+4:]
-		if len(out) != int(outsize) {
-			err = fmt.Errorf("block %s was corrupted lz4: supposed size %d but had %d bytes", b.bcoord, outsize, len(out))
+		// the stored size is the uncompressed size, which says nothing about the number of compressed bytes
+		if len(b.data) < start+4 {
+			err = fmt.Errorf("block %s was corrupted lz4: only %d bytes", b.bcoord, len(b.data))
 			return
 		}
+		outsize = binary.LittleEndian.Uint32(b.data[start : start+4])
+		out = b.data[start+4:]
 	case dvid.Uncompressed, dvid.Gzip:
 		outsize = uint32(len(b.data[start:]))
 		out = b.data[start:]
